@@ -68,18 +68,20 @@ C03Fails(t) ==
     LET evs == t.recv[s]
         view == FoldRecv([i \in 1..Len(t.init) |-> Absent], evs)
         ids == IF t.kinds[s].uo THEN SeenIds(evs) ELSE 1..Len(t.init)
-        stale == { i \in ids : view[i] # t.final[i] }
+        \* (a subscriber with the include predicate "the value is odd" holds the filtered collection)
+        want == [i \in 1..Len(t.init) |-> IF t.kinds[s].inc /\ (t.final[i] = Absent \/ t.final[i] % 2 = 0) THEN Absent ELSE t.final[i]]
+        stale == { i \in ids : view[i] # want[i] }
         n == Len(t.commits)
         after == { k \in 1..n : k > t.subAfter[s] }
     IN
     \* the view ends different from the store: either the final value did arrive and was then overwritten by
     \* the event of an earlier commit (overtaken), or it never arrived (missed)
-    UNION { If(FALSE, IF \E k \in 1..Len(evs) : evs[k].id = i /\ evs[k].v = t.final[i]
+    UNION { If(FALSE, IF \E k \in 1..Len(evs) : evs[k].id = i /\ evs[k].v = want[i]
                          THEN "C03:stale-view-event-overtook-later-commit"
                          ELSE "C03:stale-view-final-value-never-delivered") : i \in stale }
     \* with backpressure every commit made after the subscriber was registered is delivered
     \* (with an equivalence configured a commit of the value the subscriber holds is rightly not delivered)
-    \cup (IF t.kinds[s].lossy \/ t.equiv \notin {"", "none"} THEN {}
+    \cup (IF t.kinds[s].lossy \/ t.kinds[s].inc \/ t.equiv \notin {"", "none"} THEN {}
           ELSE UNION { LET e == t.commits[k] IN
                        If(Cardinality({ j \in after : t.commits[j].id = e.id /\ t.commits[j].v = e.v })
                             <= Count(evs, e.id, e.v, TRUE), "C03:commit-not-delivered") : k \in after })
